@@ -13,13 +13,14 @@ PP = re.compile(r'^output\.ValidateParamsExist: (.*): param "([^"]*)" does not e
 PS = re.compile(r'^output\.ValidateServicesExist: (.*): service "([^"]*)" does not exist$')
 
 PARAM_SHAPES = ["%{n}%", "pre %{n}% post", "%{n}%%{n}%", "%%%{n}%", "%{n}%%%", "a%%b%{n}%c", "%p_ok%-%{n}%", "%env(\"HOME\")%/%{n}%",
-                "%{n}%://%host%:%p_ok%", "%host%/%{n}%/%p_ok%", "%{n}%%host%%{n}%%p_ok%", "%zz_{n}%-%{n}%-%aa_{n}%"]
-POSITIONS = ["param", "sarg", "carg", "field", "darg"]
+                "%{n}%://%host%:%p_ok%", "%host%/%{n}%/%p_ok%", "%{n}%%host%%{n}%%p_ok%", "%zz_{n}%-%{n}%-%aa_{n}%",
+                "%host%%host%%{n}%", "%host%, %host%! %p_ok% %{n}%", "%p_ok%%p_ok%%p_ok%%{n}%%host%"]
+POSITIONS = ["param", "sarg", "carg", "field", "darg", "warg", "stararg", "deadarg"]
 
 
 def base_cfg():
     return {
-        "parameters": {"p_ok": 1, "p_todo": "%todo()%", "host": "x"},
+        "parameters": {"p_ok": 1, "p_todo": "%todo()%", "host": "x", "p_empty": "", "p_null": None, "p_zero": 0, "p_false": False},
         "services": {
             "dep": {"value": "Value"},
             "dep_todo": {"todo": True},
@@ -41,20 +42,37 @@ def put(cfg, pos, val):
         cfg["services"]["tgt"].setdefault("fields", {})["Dep"] = val
     elif pos == "darg":
         cfg["decorators"][0]["arguments"].append(val)
+    elif pos == "warg":      # argument of a wither call (third element true)
+        cfg["services"]["tgt"].setdefault("calls", []).append(["WithX", [val], True])
+    elif pos == "stararg":   # decorator on every service
+        cfg["decorators"].append({"tag": "*", "decorator": "Wrap", "arguments": [val]})
+    elif pos == "deadarg":   # decorator on a tag nobody carries: its references are checked all the same
+        cfg["decorators"].append({"tag": "nobody", "decorator": "Wrap", "arguments": [1, val]})
 
 
 def families(tier, seed):
     out = []
-    names = ["p_ok", "p_todo", "missing1", "host_svc", "dep", "p.ok", "p_ok2"]
+    names = ["p_ok", "p_todo", "missing1", "host_svc", "dep", "p.ok", "p_ok2", "P_OK", "p_o", "p_ok_", "p_empty", "p_null", "p_zero", "p_false", "Host"]
     for pos, shape, n in itertools.product(POSITIONS, PARAM_SHAPES, names):
         cfg = base_cfg()
         put(cfg, pos, shape.replace("{n}", n))
         out.append(("param-ref:%s" % pos, cfg))
     for pos in POSITIONS[1:]:
-        for n in ["dep", "dep_todo", "ghost", "host", "p_ok", "tgt2", "de-p"]:
+        for n in ["dep", "dep_todo", "ghost", "host", "p_ok", "tgt2", "de-p", "Dep", "DEP", "de", "dep_", "dep_tod", "tgt"]:
             cfg = base_cfg()
             put(cfg, pos, "@" + n)
             out.append(("service-ref:%s" % pos, cfg))
+    # strings that only look like references: "@x" as a parameter VALUE is a plain string; a todo service's own attributes are exempt
+    for val in ["@ghost", "@dep", "!tagged nobody", "!value Ghost", "@", "@@ghost"]:
+        cfg = base_cfg()
+        cfg["parameters"]["subject"] = val
+        cfg["services"]["tgt"]["arguments"].append("%subject%")
+        out.append(("lookalike:param-value", cfg))
+    for args in (["@ghost"], ["%missing1%"], ["@dep", "%p_ok%"]):
+        cfg = base_cfg()
+        cfg["services"]["dep_todo"] = {"todo": True, "constructor": "NewA", "arguments": args, "fields": {"F": args[0]}, "calls": [["C", list(args)]]}
+        cfg["services"]["tgt"]["arguments"].append("@dep_todo")
+        out.append(("todo-carrier", cfg))
     # combinations: several dangling references at once, renamed declarations
     r = random.Random("%s/c06" % seed)
     for k in range(80 if tier == "quick" else 1500):
